@@ -62,16 +62,16 @@ package fox
 //@   requires @C11 root-keys: forall j int :: {pt(fox).root[j]} 0 <= j && j < len(pt(fox).root) ==> pt(fox).root[j] != nil && len(pt(fox).root[j].key) > 0
 //@   requires @C11 fresh-allow: !allowOpt && allowN == 0 && forall j int :: {allowed[j]} !allowed[j]
 //@   modifies allowed, allowOpt, allowN, allowW
-//@   ghost-set after (*Builder).WriteString#2 : allowed[i] = true
-//@   ghost-set after (*Builder).WriteString#2 : allowN = allowN + 1
-//@   ghost-set after (*Builder).WriteString#2 : allowW = i
-//@   ghost-set after (*Builder).WriteString#4 : allowed[i#2] = true
-//@   ghost-set after (*Builder).WriteString#4 : allowN = allowN + 1
-//@   ghost-set after (*Builder).WriteString#4 : allowW = i#2
-//@   ghost-set after (*Builder).WriteString#6 : allowOpt = true
-//@   ghost-set after (*Builder).WriteString#8 : allowed[i#3] = true
-//@   ghost-set after (*Builder).WriteString#8 : allowN = allowN + 1
-//@   ghost-set after (*Builder).WriteString#8 : allowW = i#3
+//@   ghost-set @C11 after (*Builder).WriteString#2 : allowed[i] = true
+//@   ghost-set @C11 after (*Builder).WriteString#2 : allowN = allowN + 1
+//@   ghost-set @C11 after (*Builder).WriteString#2 : allowW = i
+//@   ghost-set @C11 after (*Builder).WriteString#4 : allowed[i#2] = true
+//@   ghost-set @C11 after (*Builder).WriteString#4 : allowN = allowN + 1
+//@   ghost-set @C11 after (*Builder).WriteString#4 : allowW = i#2
+//@   ghost-set @C11 after (*Builder).WriteString#6 : allowOpt = true
+//@   ghost-set @C11 after (*Builder).WriteString#8 : allowed[i#3] = true
+//@   ghost-set @C11 after (*Builder).WriteString#8 : allowN = allowN + 1
+//@   ghost-set @C11 after (*Builder).WriteString#8 : allowW = i#3
 //@   assert-at call (*Builder).WriteString#2 : @C11 writes-key: same(arg_s, tree.root[i].key)
 //@   assert-at call (*Builder).WriteString#4 : @C11 writes-key: same(arg_s, tree.root[i#2].key)
 //@   assert-at call (*Builder).WriteString#6 : @C11 writes-options: arg_s == "OPTIONS"
